@@ -281,8 +281,8 @@ fn mir_const<'tcx>(cx: &Cx<'tcx>, owner: DefId, c: &MirConst<'tcx>) -> String {
     match c {
         MirConst::Unevaluated(uv, _) => {
             let _ = write!(o, ",\"u\":{}", js(&cx.path(uv.def)));
-            if uv.promoted.is_some() {
-                o.push_str(",\"promoted\":1");
+            if let Some(pi) = uv.promoted {
+                let _ = write!(o, ",\"promoted\":{}", pi.index());
             } else {
                 let env = TypingEnv::post_analysis(tcx, owner);
                 if let Ok(v) = tcx.const_eval_resolve(env, *uv, rustc_span::DUMMY_SP) {
@@ -759,21 +759,29 @@ fn dump<'tcx>(tcx: TyCtxt<'tcx>) {
 
     // pass 1: clone every body before anything (const evaluation, borrowck)
     // can steal it.
-    let mut cloned: Vec<(LocalDefId, Body<'tcx>)> = Vec::new();
+    let mut cloned: Vec<(LocalDefId, Body<'tcx>, Vec<Body<'tcx>>)> = Vec::new();
     for ldid in tcx.hir_body_owners() {
         let did = ldid.to_def_id();
         if matches!(tcx.def_kind(did), DefKind::Fn | DefKind::AssocFn | DefKind::Closure) {
-            let (steal, _) = tcx.mir_promoted(ldid);
+            let (steal, psteal) = tcx.mir_promoted(ldid);
             let body = steal.borrow().clone();
-            cloned.push((ldid, body));
+            let proms: Vec<Body<'tcx>> = psteal.borrow().iter().cloned().collect();
+            cloned.push((ldid, body, proms));
         }
     }
-    for (ldid, body) in cloned.iter() {
+    for (ldid, body, proms) in cloned.iter() {
         let did = ldid.to_def_id();
         let path = cx.path(did);
         let fe = fn_entry(&mut cx, *ldid);
         fns.push(format!("{}:{}", js(&path), fe));
-        let bj = body_json(&mut cx, *ldid, body);
+        let mut bj = body_json(&mut cx, *ldid, body);
+        if !proms.is_empty() {
+            let pj: Vec<String> = proms.iter().map(|pb| body_json(&mut cx, *ldid, pb)).collect();
+            bj.pop();
+            bj.push_str(",\"promoted\":");
+            bj.push_str(&jlist(pj));
+            bj.push('}');
+        }
         bodies.push(format!("{}:{}", js(&path), bj));
     }
     drop(cloned);
